@@ -157,7 +157,7 @@ CHECKS = {
         H("cancel", "canc_stoponreq", 3, 4, args=[0]), H("cancel", "canc_stoponreq", 3, 4, args=[1]),
         H("cancel", "canc_generic", 3, 4, args=[0, 0, 0, 1]), H("cancel", "canc_detach", 3, 4, args=[0]),
         H("futures", "fut_v2", 3, 4, args=[1, 0]), H("futures", "fut_v2", 3, 4, args=[0, 0]), H("futures", "fut_v2", 3, 4, args=[0, 2]),
-        H("scopes", "scope_v1", 3, 4, args=[0, 2])],
+        H("scopes", "scope_v1", 3, 4, args=[0, 2]), H("scopes", "scope_ops", args=[0, 5]), H("scopes", "scope_ops", args=[1, 5])],
         "deadline": {"quick": 480, "thorough": 2400}},
     "C05": {"harnesses": [H("payload", "payload_adaptors")] + EXPR_SEQ + EXPR_SEQ_FAULTS + EXPR_CFAULT + EXPR_NX_Q + EXPR_NX_T, "deadline": {"quick": 420, "thorough": 2400}},
     "C12": {"harnesses": EXPR_SEQ_Q + EXPR_LVALUE_Q + EXPR_LVALUE_T + [H("stop", "stop_adapter", 3, 5)] + [H("expr", "expr_d2", args=[r, 0, 1], weight=6, thorough_only=True) for r in EXPR_D2_ROOTS if r >= 18], "deadline": {"quick": 420, "thorough": 2400}},
